@@ -277,6 +277,11 @@ def run(ctx):
     run_texts(ctx, tab, BLANKS + SHORT, "curated", seen)
     fs = FSTRINGS + [p + s for s in FSTRINGS[:30] for p in ("x = ", "(", "[1, ")] + [s + "\n" + s for s in FSTRINGS[:12]]
     run_texts(ctx, tab, fs, "fstrings", seen)
+    # f-string bodies of FString.tla: nested expressions re-enter the parser at computed offsets
+    from checks import c07
+    rf = ctx.tlc("literal", "FString", "FString_deepq.cfg", coverage=False, timeout=3000)
+    step = 6 if ctx.quick else 1
+    run_texts(ctx, tab, [c07.build(c)[0] for c in rf.replays[::step]], "fstring_bodies", seen)
     snippets = json.load(open(os.path.join(pygen.ROOT, "corpus", "locate_snippets.json")))
     run_texts(ctx, tab, snippets, "snippets", seen)
     eval_converse(ctx, valid + SHORT + FSTRINGS)
